@@ -18,8 +18,9 @@ RULE = ("(E2) explicit-state BFS over ALL histories of API calls (alphabet of 19
         "depth 3 (thorough 4); every transition is judged: returned value == stateless recomputation by the reference models, generator "
         "cursor == model cursor, root key/mnemonic/passphrase unchanged, every entry of every children list is the correct child of its "
         "holder. (E3) stateless schedule exploration of real threads on shared wallet/node objects under a settrace baton scheduler: ALL "
-        "interleavings up to the preemption bound at line granularity (package 'state' modules: bound 2 for the two-ckd harnesses, bound 1 "
-        "otherwise; thorough: bound 3 / 2, plus three threads) and at EVERY line of EVERY package module incl. the pure helpers (bound 1); "
+        "interleavings up to the preemption bound for systematic PAIRS of operations from a thread-operation alphabet, at line granularity "
+        "(package 'state' modules: bound 2 for the two-ckd harnesses, bound 1 otherwise; thorough: all pairs, bound 3 / 2, three threads, and "
+        "bytecode-instruction granularity via sys.monitoring at bound 1) and at EVERY line of EVERY package module incl. the pure helpers (bound 1); "
         "every thread's result must equal the reference, final children lists must be consistent, root unchanged. "
         "states/transitions count E2; schedules are reported separately")
 
@@ -35,9 +36,9 @@ def master_ref():
     return _MASTER[0]
 
 
-def new_wallet():
+def new_wallet(testnet=False):
     from btc_hd_wallet.paper_wallet import PaperWallet
-    return PaperWallet.from_mnemonic(MN, PW)
+    return PaperWallet.from_mnemonic(MN, PW, testnet)
 
 
 _XPRV = []
@@ -64,8 +65,8 @@ def ref_canon(path):
     return _REFCACHE[key]
 
 
-def ref_addr(path, kind):
-    return hd.ADDR[kind](ref_node(path).K, False)
+def ref_addr(path, kind, testnet=False):
+    return hd.ADDR[kind](ref_node(path).K, testnet)
 
 
 # ------------------------------------------------------------------------------------------------ E2: histories
@@ -78,8 +79,9 @@ OPS = [["by_path", "m/0"], ["by_path", "m/0/1"], ["by_path", "m/44'/0'/0'"], ["b
 class World:
     """the shared objects of one history + the reference-side bookkeeping"""
 
-    def __init__(self):
-        self.w = new_wallet()
+    def __init__(self, testnet=False):
+        self.t = testnet
+        self.w = new_wallet(testnet)
         self.nodes = {}            # path tuple -> FIRST node object returned for that path (reused afterwards)
         self.gens = {}             # name -> [generator, model index or None]
         self.root0 = self.w.master.extended_private_key()
@@ -133,17 +135,18 @@ class World:
             else:
                 st, y = attempt(g[0].send, op[2])
                 g[1] += op[2] or 1
-            exp = [hd.path_str([0, g[1]]), ref_addr([0, g[1]], "p2wpkh")]
+            exp = [hd.path_str([0, g[1]]), ref_addr([0, g[1]], "p2wpkh", self.t)]
             return (list(y) if st == "ok" else ["exc", y]), exp
         if k == "addr":
             n = self.node([0])
             st, a = attempt(lambda: [getattr(w, kind + "_address")(n) for kind in KINDS])
-            return (a if st == "ok" else ["exc", a]), [ref_addr([0], kind) for kind in KINDS]
+            return (a if st == "ok" else ["exc", a]), [ref_addr([0], kind, self.t) for kind in KINDS]
         if k == "xkeys":
             n = self.node([H + 44, H, H])
             st, d = attempt(w.node_extended_keys, n)
             rn = ref_node([H + 44, H, H])
-            return (d if st == "ok" else ["exc", d]), {"path": "m/44'/0'/0'", "pub": hd.xpub(rn), "prv": hd.xprv(rn)}
+            return (d if st == "ok" else ["exc", d]), {"path": "m/44'/0'/0'", "pub": hd.xpub(rn, hd.version_for("pub", self.t, 44)),
+                                                       "prv": hd.xprv(rn, hd.version_for("prv", self.t, 44))}
         if k == "bip85hex":
             st, v = attempt(w.bip85.hex, 16, 0)
             return (v if st == "ok" else ["exc", v]), hd.bip85_hex(master_ref(), 16, 0)
@@ -153,17 +156,18 @@ class World:
         if k == "wasabi":
             st, v = attempt(w.wasabi_json)
             rn = ref_node([H + 84, H, H])
-            exp = {"ExtPubKey": hd.xpub(rn), "MasterFingerprint": hd.fingerprint(master_ref().K).hex().upper(), "ColdCardFirmwareVersion": "3.1.3"}
+            exp = {"ExtPubKey": hd.xpub(rn, hd.version_for("pub", self.t, 44)), "MasterFingerprint": hd.fingerprint(master_ref().K).hex().upper(),
+                   "ColdCardFirmwareVersion": "3.1.3"}
             return (json.loads(v) if st == "ok" else ["exc", v]), exp
         if k == "generate":
             st, v = attempt(w.generate, 0, (0, 1))
-            return (v if st == "ok" else ["exc", v]), hd.paper_generate(master_ref(), False, 0, (0, 1), MN, PW)
+            return (v if st == "ok" else ["exc", v]), hd.paper_generate(master_ref(), self.t, 0, (0, 1), MN, PW)
         raise ValueError(op)
 
     def invariants(self):
         """root untouched; every children-list entry is the right child of its holder"""
         w = self.w
-        if w.master.extended_private_key() != self.root0 or w.mnemonic != MN or w.password != PW or w.master.depth != 0 or w.master.index != 0:
+        if w.master.extended_private_key() != self.root0 or w.testnet != self.t or w.mnemonic != MN or w.password != PW or w.master.depth != 0 or w.master.index != 0:
             return "the root key / mnemonic / passphrase of the wallet changed"
         stack = [(w.master, [])]
         seen = 0
@@ -184,15 +188,16 @@ class Histories:
     """canon = the history itself: caches kept anywhere (wallet, node, module) cannot be observed, so no two histories are
     assumed to reach the same state; the full tree of histories is explored to the depth bound."""
 
-    def __init__(self, ops):
+    def __init__(self, ops, testnet=False):
         self._ops = ops
+        self.testnet = testnet
 
     def ops(self, hist):
         started = {g for g in ("genA", "genB") if any(o[0] == g for o in hist)}
         return [o for o in self._ops if not (o[0] in ("genA", "genB") and len(o) > 2 and o[0] not in started)]
 
     def run(self, hist):
-        wd = World()
+        wd = World(self.testnet)
         viols, label = [], "init"
         for n, op in enumerate(hist):
             got, exp = wd.apply(op)
@@ -216,7 +221,7 @@ STATE_FILES = ["bip32.py", "base_wallet.py", "paper_wallet.py", "bip85.py", "wal
 
 
 TOPS = ["ckd0", "ckd1", "ckd2", "bpA", "bpB", "children", "gen", "xkeys", "wif0", "wif1", "hex", "wasabi", "p2wpkh", "p2sh_p2wsh", "p2pkh0", "p2pkh1",
-        "generate"]
+        "generate", "wifnode", "xprvnode", "parsexpub"]
 
 
 def harness(name):
@@ -230,7 +235,8 @@ def harness(name):
         master = w.master
         c = hdscen.canon_impl_node
         need = set(ops)
-        m0 = master.ckd(0) if need & {"children", "gen", "p2wpkh", "p2sh_p2wsh", "p2pkh0"} else None
+        m0 = master.ckd(0) if need & {"children", "gen", "p2wpkh", "p2sh_p2wsh", "p2pkh0", "wifnode", "xprvnode"} else None
+        xpub_m = hd.xpub(hd.derive(master_ref(), [5]))
         m1 = master.ckd(1) if "p2pkh1" in need else None
         acct = w.by_path("m/84'/0'/0'") if "xkeys" in need else None
         root0 = master.extended_private_key()
@@ -250,6 +256,9 @@ def harness(name):
             "p2wpkh": lambda: w.p2wpkh_address(m0), "p2sh_p2wsh": lambda: w.p2sh_p2wsh_address(m0),
             "p2pkh0": lambda: w.p2pkh_address(m0), "p2pkh1": lambda: w.p2pkh_address(m1),
             "generate": lambda: w.generate(1, (0, 1)),
+            "wifnode": lambda: m0.private_key.wif(testnet=False),
+            "xprvnode": lambda: [m0.extended_private_key(), m0.extended_public_key()],
+            "parsexpub": lambda: c(type(master).__mro__[1].parse(xpub_m)),
         }
         bodies = [B[o] for o in ops]
         pre = len(master.children)
@@ -314,6 +323,12 @@ def expected_op(op):
         return hd.p2pkh(hd.derive(m, [0]).K), []
     if op == "p2pkh1":
         return hd.p2pkh(hd.derive(m, [1]).K), []
+    if op == "wifnode":
+        return hd.wif(hd.derive(m, [0]).k), []
+    if op == "xprvnode":
+        return [hd.xprv(hd.derive(m, [0])), hd.xpub(hd.derive(m, [0]))], []
+    if op == "parsexpub":
+        return hdscen.canon_ref_node(hd.neuter(hd.derive(m, [5]))), []
     if op == "generate":
         return hd.paper_generate(m, False, 1, (0, 1), None, None), [H + 44, H + 49, H + 84] + [H + 83696968] * 9
     raise ValueError(op)
@@ -349,13 +364,13 @@ def make_check(name):
 
 
 def watched(gran):
-    return sched.watched_files(STATE_FILES if gran == "state" else sched.all_package_files())
+    return sched.watched_files(STATE_FILES if gran in ("state", "instr") else sched.all_package_files())
 
 
 def exec_schedule_case(case):
     """worker: explore the subtree below case['prefix']"""
     name, gran, bound = case["harness"], case["gran"], case["bound"]
-    st = sched.explore(harness(name), watched(gran), bound, make_check(name), prefix=case["prefix"])
+    st = sched.explore(harness(name), watched(gran), bound, make_check(name), prefix=case["prefix"], instr=(gran == "instr"))
     viols = st["violations"]
     for v in viols:
         v["case"] = {"k": "schedule", "harness": name, "gran": gran, "schedule": v.pop("schedule")}
@@ -365,8 +380,8 @@ def exec_schedule_case(case):
 
 def replay_schedule(case):
     name, gran = case["harness"], case["gran"]
-    x1 = sched.run_schedule(harness(name), watched(gran), case["schedule"])
-    x2 = sched.run_schedule(harness(name), watched(gran), case["schedule"])
+    x1 = sched.run_schedule(harness(name), watched(gran), case["schedule"], instr=(gran == "instr"))
+    x2 = sched.run_schedule(harness(name), watched(gran), case["schedule"], instr=(gran == "instr"))
     if [p[4] for p in x1.points] != [p[4] for p in x2.points] or x1.observation != x2.observation:
         raise HarnessError("schedule %r of harness %s is not deterministic" % (case["schedule"], name))
     return make_check(name)(x1)
@@ -379,7 +394,7 @@ def execute(case):
         vs = isolated(replay_schedule, case)
         return R("violation" if vs else "schedule-ok", viols=vs)
     if "hist" in case:
-        r = isolated(Histories(OPS).run, case["hist"])
+        r = isolated(Histories(OPS, case.get("layer", "").endswith("testnet")).run, case["hist"])
         for v in r["viols"]:
             v["case"] = case
         return R(r["label"], viols=r["viols"])
@@ -398,8 +413,8 @@ def explore_harness(ctx, name, gran, bound):
         nthreads = len(harness(name)()[0])
         vs, pref, npoints, nroots = [], [], 0, 0
         for first in range(nthreads):
-            x = sched.run_schedule(harness(name), w, [first])
-            x2 = sched.run_schedule(harness(name), w, [first])
+            x = sched.run_schedule(harness(name), w, [first], instr=(gran == "instr"))
+            x2 = sched.run_schedule(harness(name), w, [first], instr=(gran == "instr"))
             if [p[4] for p in x.points] != [p[4] for p in x2.points] or x.observation != x2.observation:
                 raise HarnessError("harness %s is not deterministic under the scheduler" % name)
             if len(x.points) < 4:
@@ -456,7 +471,7 @@ def plan_for(thorough):
             pairs.append((a, b))
     pairs += [("xkeys", "xkeys"), ("xkeys", "ckd0"), ("xkeys", "bpA"), ("wif0", "bpA"), ("hex", "ckd0"), ("wasabi", "wasabi"), ("wasabi", "bpA"), ("wasabi", "wif0")]
     if thorough:
-        state_ops = [o for o in TOPS if o not in ("p2wpkh", "p2sh_p2wsh", "p2pkh0", "p2pkh1", "generate", "ckd2")]
+        state_ops = [o for o in TOPS if o not in ("p2wpkh", "p2sh_p2wsh", "p2pkh0", "p2pkh1", "generate", "ckd2", "wifnode", "xprvnode", "parsexpub")]
         pairs = [(a, b) for i, a in enumerate(state_ops) for b in state_ops[i:]]
     for a, b in pairs:
         name = "%s|%s" % (a, b)
@@ -468,7 +483,11 @@ def plan_for(thorough):
         plan = [(n, g, 3 if n in ("ckd0|ckd0", "ckd0|ckd1") else b) for n, g, b in plan]
         plan += [("ckd0|ckd1|ckd2", "state", 2), ("bpA|bpB", "state", 2), ("children|gen", "state", 2), ("gen|gen", "state", 2), ("wif0|wif1", "state", 2),
                  ("xkeys|ckd0", "state", 2), ("hex|bpA", "state", 2), ("generate|wasabi", "state", 1),
-                 ("p2wpkh|p2wpkh", "all", 1), ("ckd0|ckd1", "all", 1), ("wif0|wif1", "all", 1), ("bpA|bpB", "all", 1)]
+                 ("p2wpkh|p2wpkh", "all", 1), ("ckd0|ckd1", "all", 1), ("wif0|wif1", "all", 1), ("bpA|bpB", "all", 1),
+                 ("xprvnode|parsexpub", "all", 1), ("wifnode|p2sh_p2wsh", "all", 1), ("parsexpub|parsexpub", "all", 1),
+                 # bytecode-instruction granularity (sys.monitoring) on the state modules: switches INSIDE a source line
+                 ("ckd0|ckd1", "instr", 1), ("ckd0|ckd0", "instr", 1), ("bpA|bpB", "instr", 1), ("children|gen", "instr", 1), ("gen|gen", "instr", 1),
+                 ("wif0|wif1", "instr", 1), ("xkeys|ckd0", "instr", 1)]
     return plan
 
 
@@ -480,6 +499,7 @@ def run(ctx):
     if ctx.thorough:
         depth = 3
     bfs(ctx, "api-call-histories", Histories(ops), depth, chunk=8)
+    bfs(ctx, "api-call-histories-testnet", Histories(ops, testnet=True), 3 if ctx.thorough else 2, chunk=8)
     if ctx.thorough:
         # depth 4 on the sub-alphabet that touches shared mutable objects (children lists, generators, bip85)
         sub = [o for o in OPS if o[0] in ("by_path", "ckd", "children", "genA", "genB", "bip85wif", "addr")][:11]
